@@ -448,7 +448,7 @@ bool exec_one( std::map<uint64_t, World>& worlds, uint64_t& cur, const Tokens& t
             // positions of arguments that must name an existing section
             static const std::map<std::string, std::vector<int>> secargs = {
                 { "secset", { 1 } }, { "dset", { 1 } }, { "dapp", { 1 } }, { "dins", { 1 } },
-                { "getdata", { 1 } }, { "free", { 1 } }, { "stradd", { 1 } }, { "strget", { 1 } },
+                { "free", { 1 } }, { "stradd", { 1 } }, { "strget", { 1 } },
                 { "symadd", { 1 } }, { "symadds", { 1, 2 } }, { "symget", { 1 } }, { "symname", { 1 } },
                 { "symval", { 1 } }, { "symnum", { 1 } }, { "reladd", { 1 } }, { "reladdi", { 1 } },
                 { "relget", { 1 } }, { "relgetf", { 1 } }, { "relset", { 1 } }, { "relswap", { 1 } },
@@ -531,6 +531,9 @@ bool exec_one( std::map<uint64_t, World>& worlds, uint64_t& cur, const Tokens& t
             section*    s = w.el->sections[(unsigned)num( t[1] )];
             std::string d = unhex( t[3] );
             s->insert_data( num( t[2] ), d.data(), d.size() );
+        }
+        else if ( op == "getdata" && w.el->sections[(unsigned)num( t[1] )] == nullptr ) {
+            put_n( out, 111, { num( t[1] ) } );
         }
         else if ( op == "getdata" ) {
             unsigned    i = (unsigned)num( t[1] );
@@ -641,31 +644,27 @@ bool exec_one( std::map<uint64_t, World>& worlds, uint64_t& cur, const Tokens& t
         else if ( op == "validate" ) {
             std::string e = w.el->validate();
             unsigned long long ov = 0, sg = 0;
-            size_t pos = 0;
-            while ( pos < e.size() ) {
-                size_t nl = e.find( '\n', pos );
-                if ( nl == std::string::npos )
-                    nl = e.size();
-                std::string line = e.substr( pos, nl - pos );
-                if ( line.rfind( "Sections ", 0 ) == 0 && line.find( " overlap in file" ) != std::string::npos )
-                    ++ov;
-                else if ( line.rfind( "Virtual address of segment", 0 ) == 0 )
-                    ++sg;
-                pos = nl + 1;
-            }
+            // section names are arbitrary bytes (they may contain newlines): count the fixed phrases
+            for ( size_t pos = 0; ( pos = e.find( " overlap in file\n", pos ) ) != std::string::npos; ++pos )
+                ++ov;
+            for ( size_t pos = 0; ( pos = e.find( "Virtual address of segment ", pos ) ) != std::string::npos; ++pos )
+                ++sg;
             put_n( out, 103, { ov, sg } );
         }
         else if ( op == "obshdr" ) {
             obs_hdr( w, out );
         }
         else if ( op == "obssec" ) {
-            obs_sec( w, out, (unsigned)num( t[1] ) );
+            if ( w.el->sections[(unsigned)num( t[1] )] == nullptr ) put_n( out, 111, { num( t[1] ) } );
+            else obs_sec( w, out, (unsigned)num( t[1] ) );
         }
         else if ( op == "obsseg" ) {
-            obs_seg( w, out, (unsigned)num( t[1] ) );
+            if ( num( t[1] ) >= w.el->segments.size() ) put_n( out, 111, { num( t[1] ) } );
+            else obs_seg( w, out, (unsigned)num( t[1] ) );
         }
         else if ( op == "segdata" ) {
-            obs_segdata( w, out, (unsigned)num( t[1] ) );
+            if ( num( t[1] ) >= w.el->segments.size() ) put_n( out, 111, { num( t[1] ) } );
+            else obs_segdata( w, out, (unsigned)num( t[1] ) );
         }
         else if ( op == "segfree" ) {
             w.el->segments[(unsigned)num( t[1] )]->free_data();
